@@ -587,6 +587,7 @@ pub fn run(ctx: &Ctx, which: Which) -> Report {
     // the same evaluator built with overflow checks and debug assertions
     dev_pass(ctx, which, &mut report);
     pool_stress(ctx, which, &mut report);
+    super::firstuse::run_children(ctx, "eval", 24, &mut report);
     if thorough {
         // the oracle must reproduce the published category frequencies over all sets
         report.set("oracle_category_frequencies_over_all_sets", Json::arr(set_cat_counts.iter().map(|c| Json::Int(*c as i128))));
@@ -629,21 +630,19 @@ pub fn run(ctx: &Ctx, which: Which) -> Report {
 /// evaluation must stay a function of the seven cards when it is called concurrently (a shared memo or
 /// cache inside the evaluator would have to get every concurrent publication right).
 fn pool_stress(ctx: &Ctx, which: Which, report: &mut Report) {
-    if which != Which::C01 {
-        return;
-    }
     let table = ClassTable::get();
     let threads = crate::util::threads().max(2);
     let per_thread: u64 = ctx.tier.pick(600_000, 6_000_000);
     let mut total = 0u64;
     for (pi, pool_size) in [2usize, 16, 256, 4096, 65_536].iter().enumerate() {
         let mut rng = Rng::derive(ctx.seed, "c01-pool", pi as u64);
-        let pool: Vec<([Card; 7], u16, [u8; 7])> = (0..*pool_size)
+        let pool: Vec<([Card; 7], u16, [u8; 7], &'static str)> = (0..*pool_size)
             .map(|_| {
                 let s = rng.sample(52, 7);
                 let ids = [s[0] as u8, s[1] as u8, s[2] as u8, s[3] as u8, s[4] as u8, s[5] as u8, s[6] as u8];
                 let cards = [card(ids[0]), card(ids[1]), card(ids[2]), card(ids[3]), card(ids[4]), card(ids[5]), card(ids[6])];
-                (cards, table.class_of(best7(&sorted7(ids))), ids)
+                let key = best7(&sorted7(ids));
+                (cards, table.class_of(key), ids, category_name(key))
             })
             .collect();
         let pool = &pool;
@@ -654,10 +653,16 @@ fn pool_stress(ctx: &Ctx, which: Which, report: &mut Report) {
                 handles.push(scope.spawn(move || {
                     let mut rng = Rng::derive(seed, "c01-pool-thread", (pi * 1000 + t) as u64);
                     let mut bad: Vec<(usize, u16)> = Vec::new();
+                    let per_thread = if which == Which::C07 { per_thread / 4 } else { per_thread };
                     for _ in 0..per_thread {
                         let i = rng.usize_below(pool.len());
-                        let got = MadeHand::from(pool[i].0).power_index();
-                        if got != pool[i].1 && bad.len() < 8 {
+                        let hand = MadeHand::from(pool[i].0);
+                        let got = hand.power_index();
+                        let ok = match which {
+                            Which::C01 => got == pool[i].1,
+                            Which::C07 => format!("{:?}", hand.hand_type()) == pool[i].3,
+                        };
+                        if !ok && bad.len() < 8 {
                             bad.push((i, got));
                         }
                     }
@@ -671,7 +676,7 @@ fn pool_stress(ctx: &Ctx, which: Which, report: &mut Report) {
             let ids = pool[i].2;
             report.violate(
                 format!("concurrent-eval:{}", cards_text(&ids)),
-                format!("{} evaluates to {} while {} threads evaluate a pool of {} hands concurrently; its class is {}", cards_text(&ids), got, threads, pool_size, pool[i].1),
+                format!("{} evaluates to index {} / a wrong category while {} threads evaluate a pool of {} hands concurrently; its class is {} ({})", cards_text(&ids), got, threads, pool_size, pool[i].1, pool[i].3),
                 Json::obj().set("kind", Json::str("eval")).set("cards", Json::str(cards_text(&ids))),
             );
         }
